@@ -257,6 +257,9 @@ fn c07_lookup_body<const N: usize>() {
         let raw = t.get_raw_token();
         assert!((raw.dst_line, raw.dst_col) <= (line, col), "C07/lookup-not-after-query");
         assert!(t.get_src_line() == raw.src_line, "C07/lookup-original-line");
+        // "advanced by the distance": never to the left of the token's own original column
+        // (what happens beyond u32::MAX is the implementation's choice, wrapping to the left is not)
+        assert!(t.get_src_col() >= raw.src_col, "C07/lookup-range-never-moves-left");
         if raw.is_range && raw.dst_line == line {
             let dist = (col - raw.dst_col) as u64;
             let want = raw.src_col as u64 + dist;
